@@ -24,11 +24,10 @@ R("b7c00e393d", "config", "network + offset with offset < 2^(32-prefixlen): stay
 R("7f379f249b", "config", "Ipv4Subnet::netmask shifts by the prefix length of a configured or interface subnet", props=C05)
 R("1a5ec36410", "config", "dest[0] of a forward route: the server list comes from the configuration", props=C05)
 R("846664c7f6", "config", "RA option length octet: length of a configured option value", props=C05)
-R("e45e0bc380", "config", "RA RDNSS length octet: 1 + 2 * number of configured servers", props=C05)
-R("9c79c3c9aa", "config", "RA DNSSL length octet: 1 + size of the configured search list / 8", props=C05)
-R("86f2138601", "config", "IPv4 total length: 20 + size of the DHCP reply, whose size is fixed by the configured options and the fixed "
+R("1ff92d722b", "internal", "RA DNSSL length octet: names are appended only while the list stays within 254 * 8 octets, so after padding len / 8 <= 254")
+R("88f12b364c", "config", "IPv4 total length: 20 + size of the DHCP reply, whose size is fixed by the configured options and the fixed "
   "BOOTP header, not by the request", props=C05)
-R("24ee7924bc", "config", "UDP length: 8 + size of the DHCP reply (see new_ipv4)", props=C05)
+R("3b271e10e0", "config", "UDP length: 8 + size of the DHCP reply (see new_ipv4)", props=C05)
 
 # ------------------------------------------------------------------ environment
 for h, n, why in (
@@ -56,8 +55,8 @@ for h, n, why in (
     ("6bd8eb597a", 1, "local address of an accepted TCP connection"),
     ("1a653aa623", 1, "local address of a connected UDP socket"),
     ("16674eaf0e", 1, "difference of two Instant::now() readings of the monotonic clock, later minus earlier"),
-    ("5f486516bb", 1, "Instant + constant 120 s"),
-    ("48d24f4011", 1, "Instant + constant 120 s"),
+    ("bcfd80baec", 1, "Instant + constant 120 s"),
+    ("f7dbcef064", 1, "Instant + constant 120 s"),
     ("eae0d9ce64", 1, "interface table from netlink: the interface a solicitation arrived on is known"),
     ("a1c1ac9afe", 1, "an IPv6-enabled interface always has a link-local address (netlink)"),
     ("c2953f5b87", 1, "interface index conversion: kernel value"),
@@ -70,19 +69,19 @@ R("8248e5f66d", "internal", "Instant + lifetime, lifetime <= u32::MAX seconds (f
 R("a626129d44", "internal", "Instant + lifetime, lifetime <= u32::MAX seconds", requires=("C06.R3",))
 R("72e0fc64e3", "internal", "(birth + lifetime) - now on the edge where expiry() >= now", requires=("C06.R2",))
 R("2e61caff4b", "internal", "now - birth: birth is an earlier reading of the same monotonic clock")
-R("2e7599deba", "internal", "Duration * small constant: dur is a measured round trip below the timeout (<= MAX_DNS_TIMEOUT)")
+R("53d5e6e23c", "internal", "Duration * small constant: dur is a measured round trip below the timeout (<= MAX_DNS_TIMEOUT)")
 R("c24e39ee32", "internal", "Duration * small constant: the shared timeout is clamped to [MIN_DNS_TIMEOUT, MAX_DNS_TIMEOUT] on every store")
-R("7fb22b53c3", "internal", "sum of the two bounded products above")
-R("e1749eed04", "internal", "Duration * small constant: dur is a measured round trip")
-R("b989955a97", "internal", "timeout/2 + jitter < timeout; the retry loop ends after a fixed number of rounds so the timeout stays far below Duration::MAX")
-R("8e8a0794c4", "internal", "timeout += at most 1.5 * timeout for a fixed number of retry rounds")
+R("e94a834b8f", "internal", "sum of the two bounded products above")
+R("71de8c27e2", "internal", "Duration * small constant: dur is a measured round trip")
+R("c72bdfceac", "internal", "timeout/2 + jitter < timeout; the retry loop ends after a fixed number of rounds so the timeout stays far below Duration::MAX")
+R("5b5e45b5c2", "internal", "timeout += at most 1.5 * timeout for a fixed number of retry rounds")
 
 # ------------------------------------------------------------------ mutexes and channels
 R("c3fdd12a00", "internal", "address_cache mutex: the critical sections only touch a HashSet and cannot panic, so the lock is never poisoned", count=3)
 R("469778b6a2", "internal", "the cache Option was filled a few lines above under the same call")
 R("1b171b2551", "internal", "oneshot send: the requester awaits the receiver with no cancellation point in between")
 R("2e863439bd", "internal", "oneshot send: the requester awaits the receiver with no cancellation point in between")
-R("ec06dd0224", "internal", "oneshot send: the requester awaits the receiver with no cancellation point in between")
+R("e8f7b2b456", "internal", "oneshot send: the requester awaits the receiver with no cancellation point in between")
 R("48fba22fcf", "internal", "send_tcp_query is called only after run() has (re)opened self.tcp on the same loop iteration")
 R("33b83cdd98", "internal", "read_reply is polled only while self.tcp is Some (the select arm is guarded by it)")
 R("b9718c2c5b", "internal", "futures::select! without a complete branch: the mpsc receiver and the timers never all complete")
@@ -91,7 +90,7 @@ R("d6c509b83f", "internal", "recv_in_query's Err is matched before the unwrap on
 R("8f0e816ca3", "internal", "recv_in_query's Err is matched before the unwrap on the Ok arm")
 R("7211a583b9", "internal", "the set of service futures is non-empty: at least one listener was pushed or new() failed earlier")
 R("e8c4fd0656", "internal", "JoinError only if a listener task panicked, which is what this property excludes")
-for h in ("627e998b2a", "90c6d33686", "4f607836c2", "8b008fce6c"):
+for h in ("627e998b2a", "6f515e6407", "7a08c882c5", "7898263e58"):
     R(h, "internal", "fmt::Write for String never returns an error")
 
 # ------------------------------------------------------------------ decoder / encoder agreements
@@ -106,7 +105,7 @@ R("f13c6cccc5", "internal", "RData::Other is only built by the decoder from get_
 R("b6ce84023a", "internal", "rcode <= 0xfff: the decoder builds it from a 4-bit field plus an 8-bit extension; local errors are constants", requires=("C14.R2",))
 R("83515f7b55", "internal", "record counters: one increment per record of a decoded message, whose section counts are u16; more records "
   "than 65535 cannot fit the size limit first", count=3, requires=("C04.R3",))
-for h in ("e8859f11aa", "0590e89bcb", "4ae99c71df", "21f7521c1b"):
+for h in ("872241c237", "f0c374f670", "8614637107", "739d43bbc3"):
     R(h, "internal", "patching the 12-octet header that the same function wrote first", requires=("C04.R2",))
 R("6f500c9ab2", "internal", "ttl - decrement: a hit is served only while now <= birth + lifetime and lifetime is the minimum TTL over the very "
   "sections that are decremented", count=3, requires=("C06.R1", "C06.R2", "C06.R3"))
@@ -136,16 +135,16 @@ R("8a54f9a3cd", "unreach", "the record was selected by rrtype == OPT and the dec
 R("2beddd22c1", "loop", "dns_routes[route] with route from 0..dns_routes.len() under the same read guard")
 R("098c27b463", "loop", "dns_routes[best_route]: an index taken from the same range under the same read guard")
 R("d0f8157fd5", "internal", "best_suffix is set together with best_route")
-R("a02e9c76ae", "internal", "tlvs.len() - 1 immediately after a push")
+R("53a3f2df90", "internal", "tlvs.len() - 1 immediately after a push")
 R("061ac92a02", "internal", "value[..p + 1] with p a position inside value (rposition), or value[..0]")
 R("94e434c019", "internal", "p + 1 with p < len(value)")
 R("8497e0f07b", "internal", "concat of value[2..] (12 octets: the length was checked to be 14) and 4 zero octets is 16 octets")
 R("2c5c0e5770", "internal", "chunks_exact(16) yields slices of exactly 16 octets")
-R("4365601b4a", "internal", "every option arm pads what it writes to a multiple of 8 octets")
+R("75eb8593d2", "internal", "every option arm pads what it writes to a multiple of 8 octets")
 R("e81b6d25f8", "internal", "serialise() is only called with the advertisement erbium built itself; the other message kinds are never sent", count=2)
-for h in ("92144645bc", "0703a0e489"):
+for h in ("ed8eb25f1a", "8514a972a6"):
     R(h, "internal", "patching the checksum field of the 20-octet IPv4 header pushed a few lines above", requires=("C12.R4",))
-for h in ("806e663d1e", "98414097fb"):
+for h in ("5b9a875567", "ff7e4265a4"):
     R(h, "internal", "patching the checksum field of the 8-octet UDP header pushed a few lines above", requires=("C12.R4",))
 R("9ba7aae664", "loop", "i + count == len(buffer) is a loop invariant and count > 1", count=2)
 R("531e3caf16", "loop", "i + 1 < len(buffer)")
@@ -155,3 +154,23 @@ R("47d428e3f3", "internal", "sum of at most 32768 16-bit words per buffer of at 
 R("6a764779e6", "internal", "sum of at most 32768 16-bit words per buffer of at most 65535 octets fits u32")
 R("a9a13530a4", "internal", "(sum >> 16) + (sum & 0xffff) <= 0xffff + 0xffff")
 R("4d6470b732", "internal", "sum of two in-memory lengths")
+
+# ================================================================== C19: the loader
+C19 = ("C19",)
+R("c4ffd76e63", "internal", "UnixAddr::new of a constant path shorter than sun_path", props=C19)
+R("c341203487", "internal", "st.as_bytes()[1..] in the arm where st.get(0..1) == Some(\"@\"), so the string has at least one octet", props=C19)
+R("db0a0e8950", "internal", "k.as_str().unwrap() inside the arm that matched k.as_str() == Some(\"match-interface\")", props=C19)
+R("89b50d6188", "internal", "x[6..] in the arms guarded by x.starts_with(\"match-\") / x.starts_with(\"apply-\"), both 6 octets long", count=2, props=C19)
+R("1a84cb5460", "internal", "network + i with i below the host mask of the same subnet: the network address has zero host bits", props=C19,
+  requires=("inv",))
+R("b96eedc989", "internal", "parse_interface returns Ok(Some(_)) for a hash and Err otherwise; it never returns Ok(None)", props=C19)
+R("8c5c9753c8", "internal", "parse_interface returns Ok(Some(_)) for a hash and Err otherwise; it never returns Ok(None)", props=C19)
+
+# ================================================================== C19: configuration-dependent sites of the service scope
+R("09b85350de", "internal", "Prefix4::new / Prefix6::new assert the length: the only non-test callers pass prefixlen - 96 of a ::ffff:0:0/96+ prefix "
+  "whose length the loader bounded by 128, or the prefix length of an interface address reported by the kernel", count=2, props=C19, requires=("V1",))
+R("b7c00e393d", "internal", "network + offset with offset below the host mask of the same prefix (zero host bits in network())", props=C19, requires=("inv",))
+R("1a5ec36410", "internal", "dest[0] of a forward route: the loader builds a forward route only with a non-empty server list", props=C19, requires=("V3",))
+R("846664c7f6", "env", "RA source link-layer address option: the address comes from the kernel's link table (6 octets for Ethernet)", props=C19)
+R("88f12b364c", "internal", "IPv4 total length: the DHCP reply is framed only when it has at most 65507 octets", props=C19, requires=("V4",))
+R("3b271e10e0", "internal", "UDP length: the DHCP reply is framed only when it has at most 65507 octets", props=C19, requires=("V4",))
